@@ -1424,10 +1424,24 @@ def crosscheck_tables(chk, E, X, XH):
     handled = sorted(XH["handled"])
     reps = M.ask([f"c01.dump.checks\t{h}" for h in handled])
     for h, rep in zip(handled, reps):
-        want = ";".join(k + ":" + ",".join(ns) for k, ns in XH["checks"].get(h, []))
+        want = ";".join(k + ":" + ",".join(ns) + ":" + ("1" if b else "0") + ("1" if t else "0") for k, ns, b, t in XH["checks"].get(h, []))
         chk.case(("dump.checks", h))
         if rep[0] != "ok" or (rep[1] if len(rep) > 1 else "") != want:
             chk.disagree("c01.dump.checks", f"{h}: driver {rep}, translator {want}")
+    # the ast facts about the dispatcher's source (write sites, input aliases, branch tuples)
+    try:
+        XW = json.load(open(os.path.join(core.BUILD, "extract_c01_writes.json"), encoding="utf-8"))
+        rep = M.ask(["c01.dump.writes"])[0]
+        want = [";".join(f"{k}:{b}" for _l, k, b, _e in XW["dispatcher_sites"]), ",".join(XW["dispatcher_aliases"]),
+                ",".join(X["rescale_tuple"]), ";".join(f"{a}>{b}" for a, b in X["mismatch_fallback"])]
+        chk.case(("dump.writes",))
+        if rep[1:] != want:
+            chk.disagree("c01.dump.writes", f"driver {rep[1:]} differs from the translator's {want}")
+        live_tuple = [f.__name__ for f in (ua._preserve_units, ua._comparison_unit, ua._arctan2_unit, ua._difference_units)]
+        if not set(live_tuple) <= set(X["rescale_tuple"]):
+            chk.count("rescale-tuple-lacks-a-checked-rule")
+    except Exception as e:  # noqa: BLE001
+        chk.disagree("c01.dump.writes", repr(e))
     live_handled = sorted((("linalg." if (f.__module__ or "").startswith("numpy.linalg") else "fft." if (f.__module__ or "").startswith("numpy.fft") else "") + f.__name__) for f in af._HANDLED_FUNCTIONS)
     if live_handled != handled:
         chk.disagree("c01.handled", "handled-function list differs from the live _HANDLED_FUNCTIONS")
